@@ -358,7 +358,33 @@ func checkC15(c *Ctx, w *World) {
 	g.whoMayWrite("C15.dial", "GCPMultiEndpoint.pools", map[string][]string{fname(g.upd): {"map-insert", "map-delete"}})
 	// the valid set is built from every endpoint of every option entry
 	okValid := false
-	if mk, ok := valid.(*ssa.MakeMap); ok {
+	mk, _ := valid.(*ssa.MakeMap)
+	var validRange ssa.Instruction
+	if valid != nil {
+		for _, l := range rangeLoops(g.upd, func(v ssa.Value) bool { return v == valid }) {
+			validRange = l.Range
+		}
+	}
+	if mk == nil && valid != nil {
+		// the set may come out of a validating helper `(set, error)`: one make, nil on the rejecting exits
+		var cands []*ssa.MakeMap
+		other := false
+		for _, o := range origins(valid) {
+			if o.Kind == "zero" || isNilConst(o.Val) {
+				continue
+			}
+			if m, isM := o.Val.(*ssa.MakeMap); isM {
+				cands = append(cands, m)
+			} else {
+				other = true
+			}
+		}
+		if len(cands) == 1 && !other {
+			mk = cands[0]
+		}
+	}
+	if mk != nil {
+		vcs := newCondSpace(g.upd, recOf())
 		for _, outer := range rangeLoops(g.upd, func(v ssa.Value) bool { return isLoadOf(v, "GCPMultiEndpointOptions.MultiEndpoints") }) {
 			eachInstr(g.upd, func(in ssa.Instruction) {
 				mu, ok := in.(*ssa.MapUpdate)
@@ -370,6 +396,30 @@ func checkC15(c *Ctx, w *World) {
 					if ia, ok := u.X.(*ssa.IndexAddr); ok {
 						if f, base, isL := loadedField(ia.X); isL && f == "MultiEndpointOptions.Endpoints" && outer.val(base) {
 							okValid = true
+						}
+					}
+				}
+				// … of EVERY entry and EVERY endpoint: the scans are left before they are exhausted only on ways that never
+				// reach the dialing loop (a rejecting exit of the validation)
+				var inner *Loop
+				for _, l := range loopsOf(g.upd) {
+					if l.Blocks[mu.Block()] && outer.Blocks[l.Header] && l.Header != outer.Header && (inner == nil || len(l.Blocks) < len(inner.Blocks)) {
+						inner = l
+					}
+				}
+				for _, l := range []*Loop{outer.Loop, inner} {
+					if l == nil {
+						okValid = false
+						continue
+					}
+					for b := range l.Blocks {
+						for si, sb := range b.Succs {
+							if l.Blocks[sb] || b == l.Header {
+								continue
+							}
+							if validRange == nil || vcs.Satisfiable(vcs.And(vcs.EdgeCond(b, si), vcs.Reach(validRange))) {
+								okValid = false
+							}
 						}
 					}
 				}
@@ -734,6 +784,12 @@ func checkC15(c *Ctx, w *World) {
 		})
 	}
 	c.check(okNt, "C15.notify", "notify reaches every MultiEndpoint", p.pos(g.notify.Pos()), "under gme.mu (read), every MultiEndpoint is told SetEndpointAvailability(own endpoint, state == READY)", "a connectivity change is not reported to every MultiEndpoint with the right endpoint/state")
+	// every pool in the table is monitored: the only goroutine of the package is the monitor, started by the pool's
+	// constructor with the cancel function kept in the pool (C16.close) — a pool whose monitor is started later, by
+	// whoever created it, stays unmonitored when that caller leaves early, and its outages never reach a MultiEndpoint
+	importPremisesIf(c, w, "C16", checkC16, []string{"C16.close"}, "C15.notify", func(construct string) bool {
+		return strings.HasPrefix(construct, "goroutine started in")
+	})
 	_ = fmt.Sprint
 }
 
